@@ -807,6 +807,10 @@ impl<'a> LiveEvents<'a> {
                     // Found the start of the next document
                     self.reset_document_state();
                     self.produced_any_in_doc = false;
+                    // The skipped events (this one included) bypassed the budget enforcer.
+                    if let Some(budget) = self.budget.as_mut() {
+                        budget.document_started_after_skip();
+                    }
                     return true;
                 }
                 Event::DocumentEnd => {
